@@ -48,6 +48,11 @@ structure Cfg where
   stubListingCached : Bool := false
                             -- `typeshed._create_stub_map` (the `os.listdir` map "name → .pyi" of one
                             -- directory) carries a process-wide memo decorator (`lru_cache`, …)
+  stampIsFsMtime : Bool := true
+                            -- the time a module's FileIO reports (`get_last_modified` of the classes in
+                            -- `jedi/file_io.py`, inherited from parso unless overridden) is the file
+                            -- system's full-resolution mtime (`os.path.getmtime`); `false`: an override
+                            -- reports whole seconds (`os.stat(p)[stat.ST_MTIME]`, `int(…)`)
 deriving DecidableEq, Repr
 
 structure State (B T : Type) where
@@ -94,6 +99,15 @@ section
 variable {B T : Type} [DecidableEq B]
 variable (cfg : Cfg) (parse : B → T)
 
+/-- stamps are in units of 1/`subsec` seconds (the harness uses milliseconds) -/
+def subsec : Nat := 1000
+
+/-- `file_io.get_last_modified()` for a file whose file-system mtime is `m`: the mtime itself, or —
+when an override in `jedi/file_io.py` reads a whole-second field — `m` truncated to the second.
+The mtime of the pickle *file* is read by parso itself (`os.path.getmtime(cache_path)`) and is
+never truncated. -/
+def reported (m : Nat) : Nat := if cfg.stampIsFsMtime then m else m / subsec * subsec
+
 /-- `try_to_save_module` -/
 def save (st : State B T) (p : Path) (ptime : Nat) (b : B) : T × State B T :=
   let it : Item B T := { changeTime := ptime, lines := b, tree := parse b }
@@ -117,25 +131,26 @@ def cachedLoad (st : State B T) (p : Path) (ptime : Nat) : Option (T × State B 
   else none
 
 /-- the rest of `Grammar._parse`: diff parser against the in-memory item, or a from-scratch parse -/
-def fallLoad (st : State B T) (p : Path) (f : File B) : Option T × State B T :=
+def fallLoad (st : State B T) (p : Path) (ptime : Nat) (f : File B) : Option T × State B T :=
   match (if cfg.diff then st.mem p else none) with
   | some it =>
     if it.lines = f.bytes then (some it.tree, st)      -- `old_lines == lines`
-    else let r := save cfg parse st p f.mtime f.bytes; (some r.1, r.2)
+    else let r := save cfg parse st p ptime f.bytes; (some r.1, r.2)
   | none =>
     if cfg.cache || cfg.diff then
-      let r := save cfg parse st p f.mtime f.bytes; (some r.1, r.2)
+      let r := save cfg parse st p ptime f.bytes; (some r.1, r.2)
     else (some (parse f.bytes), st)
 
 /-- `_load_python_module` → `Grammar._parse(file_io=KnownContentFileIO(path, content read now))`.
+Both `load_module` and `try_to_save_module` take `p_time = file_io.get_last_modified()`.
 `none`: no such file (nothing is served). -/
 def load (st : State B T) (p : Path) : Option T × State B T :=
   match st.fs p with
   | none => (none, st)
   | some f =>
-    match cachedLoad cfg st p f.mtime with
+    match cachedLoad cfg st p (reported cfg f.mtime) with
     | some (t, st') => (some t, st')
-    | none => fallLoad cfg parse st p f
+    | none => fallLoad cfg parse st p (reported cfg f.mtime) f
 
 /-- `import_module_by_names` for one name, through the per-Script module cache; `find` = what the
 import finder returns for the present file system -/
